@@ -82,6 +82,23 @@ def gen(tier, rng):
             n = rng.randrange(0, 2 * k + 4)
             yield sx([17, 2, ty, rnd(ty, rng), rnd(ty, rng), k, [rnd(ty, rng) for _ in range(n)]])
 
+    # source numbers that are EXACTLY zero (Rat 0/1, Fp 0) at u positions, at v positions, runs of
+    # zeros, all zeros: the pairing must not shift and nothing extra may be consumed
+    for ty in (0, 1):
+        zero = num(ty, 0)
+        for k in range(1, 6):
+            w = 2 * ((k + 1) // 2)
+            for extra in (0, 1, 2, 3):
+                for pattern in ("u", "v", "uu", "all", "first"):
+                    src = [rnd(ty, rng) if True else 0 for _ in range(w + extra)]
+                    src = [x if x != zero else num(ty, 3) for x in src]
+                    for i in range(len(src)):
+                        if (pattern == "u" and i % 2 == 0 and rng.random() < 0.6) or \
+                           (pattern == "v" and i % 2 == 1) or (pattern == "uu" and i % 4 in (0, 1)) or \
+                           pattern == "all" or (pattern == "first" and i == 0):
+                            src[i] = zero
+                    m, v = params[ty][k % len(params[ty])]
+                    yield sx([17, 2, ty, m, v, k, src])
     # ---- multivariate draws
     def cov_random(ty, n):
         if ty == 0:
@@ -128,7 +145,12 @@ def gen(tier, rng):
                 cov = cov_random(ty, n)
                 mean = [[rnd(ty, rng)] for _ in range(n)]
                 names = rng.choice([(0, 1), (1, 0), (3, 5), (5, 2), (2, 9)])
-                yield mv_case(ty, k, mean, cov, [rnd(ty, rng) for _ in range(k * w + rng.choice([0, 0, 0, 1, 3]))], names)
+                src = [rnd(ty, rng) for _ in range(k * w + rng.choice([0, 0, 0, 1, 3]))]
+                if rng.random() < 0.3:
+                    for i in range(0, len(src), 2):
+                        if rng.random() < 0.5:
+                            src[i] = num(ty, 0)          # exact zero at a u position
+                yield mv_case(ty, k, mean, cov, src, names)
             # the same names for both dimensions: tensor variant refuses, matrix variant draws
             for k in ((0, 1, 2) if n == 1 else (1, 2)):
                 cov = cov_random(ty, n)
